@@ -301,12 +301,25 @@ CLAIMS = {
        "(Unicode case tables reachable through heap-held kinds), url_decode, regex_replace, json_parse, parse_epoch, now, string "
        "parsing (`parse::<i64>` on symbolic bytes), dispatch/arity in the parser, results bound to variables.",
   design="4/C18"),
+ "C19": dict(
+  text="The part of rulegen that engine B can read (MIR; serde / HashMap / formatting calls modelled; z3+cvc5): print_rules hands the text it "
+       "built, unchanged, to the crate's own rules_file parser and writes it (that very text, nothing added) ONLY on the path where the parser "
+       "returned Ok, otherwise it reports an error - so what is emitted parses; per resource type it emits `let <v> = Resources.*[ Type == "
+       "'<that type>' ]`, `rule <name> when %<v> !empty {` with <v> = <name>_resources, one clause per recorded property about that variable "
+       "and that property (`IN [..]` iff more than one value was recorded, else `==`), and `}` - the five format templates are decoded from "
+       "the MIR constants and compared with the documented ones, the holes are checked by value identity (<= 2 types x <= 2 properties); one "
+       "gen_rules step never removes anything and ends in an insert for the property visited; gen_rules never unwraps template content (C08).",
+  note="NOT decided: that the emitted rules PASS on the template they came from. KNOWN FINDING (recorded, not repaired): they do not when "
+       "resources of one type have different property sets - exhibited by an abstract two-Boolean obligation over the code facts above plus "
+       "C01's 'unresolved = FAIL' (this one obligation is about a model of the round trip, not about one function's MIR) and replayed by "
+       "rulegen + validate. Also not decided: the value strings (quoting, newlines stripped), serde's reading of the template, the name "
+       "mangling (`::` -> `_`, lower case) beyond the call sequence. No Kani harness serves this property.",
+  design="0b/C19"),
 }
 
-MIR_ONLY = {"C05", "C07", "C11", "C12", "C14", "C15"}
+MIR_ONLY = {"C05", "C07", "C11", "C12", "C14", "C15", "C19"}
 
 NA = {
- "C19": "serde template parsing + string building + the full parser and evaluator round trip; whole-program",
 }
 
 
@@ -345,7 +358,7 @@ def main():
         "engines": [
             {"name": "kani-cbmc", "path": "/verif/check", "serves_properties": sorted(set(CLAIMS) - MIR_ONLY),
              "kind_free_text": "Kani 0.68 (rustc MIR -> goto-program) + CBMC 6.11 (symbolic execution, bit-blasting, CaDiCaL) over the real cfn-guard crate; counterexamples replayed natively with cargo kani playback"},
-            {"name": "mir-smt", "path": "/verif/lib/mirsmt.py", "serves_properties": ["C01", "C02", "C03", "C04", "C05", "C06", "C07", "C08", "C09", "C10", "C11", "C12", "C13", "C14", "C15", "C16", "C17", "C18"],
+            {"name": "mir-smt", "path": "/verif/lib/mirsmt.py", "serves_properties": ["C01", "C02", "C03", "C04", "C05", "C06", "C07", "C08", "C09", "C10", "C11", "C12", "C13", "C14", "C15", "C16", "C17", "C18", "C19"],
              "kind_free_text": "nightly -Zunpretty=mir dump of the current tree; lib/mirsmt.py (loop-free kernels, havoc-mode overflow/negate site search), lib/mirexec.py (bounded path enumeration with call models, loop unrolling, value identities) and lib/miragg.py / mirblocks.py / mirflow.py / mirpaths.py / mirload.py / mirquery.py / mirorder.py (aggregation, memoisation, index, negation-flow, block, operator-layer, wiring and exit-code obligations) emit SMT-LIB2 decided by z3 4.8.12 and cvc5 1.0 (must agree); candidates are replayed through the real CLI built from the scratch copy"},
         ],
         "checks": checks,
